@@ -7,6 +7,7 @@ import (
 	"math/rand"
 	"os"
 	"path/filepath"
+	"strings"
 
 	"github.com/btcsuite/btcd/wire"
 
@@ -34,13 +35,16 @@ import (
 func init() {
 	kit.Register(&kit.Spec{
 		ID:     "C18",
-		Rule:   "case = one stored block (random bytes 1 B..200 KiB or a real serialized ELA block) x the read path (pending in the storing tx / committed / after rollover / after reopen) x ~40 regions: header prefix, every tx location, random in-bounds (offset,len), len 0, offset==len(block), exact end, 1..13 bytes past the end, uint32 overflow of offset+len. distinct = block hash + path; non-trivial = the block was committed to a flat file and read back at least once after commit",
+		Rule:   "family failed-commit: a commit that has already rolled over to a new block file gets an injected short write + I/O error at one of its later writeData calls (every call position, prefixes 0/1/len-1/len/2), the process continues: all earlier blocks are re-read, the blocks are stored again, more commits incl. a rollover, re-read, close/reopen, re-read. Otherwise: case = one stored block (random bytes 1 B..200 KiB or a real serialized ELA block) x the read path (pending in the storing tx / committed / after rollover / after reopen) x ~40 regions: header prefix, every tx location, random in-bounds (offset,len), len 0, offset==len(block), exact end, 1..13 bytes past the end, uint32 overflow of offset+len. distinct = block hash + path; non-trivial = the block was committed to a flat file and read back at least once after commit",
 		Shards: func(tier string) int { return 8 },
 		Run:    runC18,
 		Require: []string{"blocks_stored", "blocks_committed", "file_rollovers", "reopens", "fetch_block_checks", "fetch_blocks_bulk_checks",
 			"header_checks", "region_valid_checks", "region_invalid_checks", "region_overflow_checks", "region_bulk_checks", "txloc_region_checks",
 			"pending_path_checks", "committed_path_checks", "after_reopen_checks", "rolled_back_blocks_absent", "has_block_checks",
-			"dup_store_rejected", "unknown_hash_rejected", "live_node_tx_roundtrips", "positive_control_exact_end_region_ok"},
+			"dup_store_rejected", "unknown_hash_rejected", "live_node_tx_roundtrips", "positive_control_exact_end_region_ok",
+			"failed_commit_after_rollover_cases", "blocks_reread_after_failed_commit", "commits_after_failed_commit",
+			"failed_commit_files_deleted_by_rollback", "failed_commit_after_two_rollovers_cases", "failed_commit_with_block_in_old_file_cases",
+			"rollovers_after_failed_commit", "reopens_after_failed_commit", "blocks_reread_after_failed_commit_and_reopen"},
 		FatalIsViolation: true,
 		MemLimitMB:       6144,
 		FatalSig: func(lastBegin, stderr string) string {
@@ -49,6 +53,7 @@ func init() {
 		Assumptions: []string{
 			"the harness keeps its own copy of every stored block; returned slices are compared inside the transaction that returned them",
 			"the first block written into an empty database is kept smaller than the configured maximum file size (a larger one would make ffldb skip file 0, a situation the production constants (64 MiB files, 8 MB blocks) exclude)",
+			"failed commits are produced by verifhook.Partial at blockStore.writeData (short write followed by an I/O error, as ENOSPC would); failures of file open/truncate/sync or of leveldb are not injected",
 			"a region is valid iff offset+len <= len(block) without uint32 overflow (interface.go: ErrBlockRegionInvalid if the region exceeds the bounds of the associated block)",
 		},
 	})
@@ -98,6 +103,8 @@ type c18run struct {
 	reopened bool
 	lastFile uint32
 	scen     string
+	nviol    int
+	failCtx  map[string]interface{} // set while checking after an injected failed commit (c18_fail.go)
 }
 
 const c18Magic = wire.BitcoinNet(2018201)
@@ -203,6 +210,10 @@ func (x *c18run) viol(sig, detail string, b *c18blk, extra map[string]interface{
 	for k, v := range extra {
 		m[k] = v
 	}
+	if x.failCtx != nil {
+		m["after_failed_commit"] = x.failCtx
+	}
+	x.nviol++
 	x.c.Violate(sig, detail, m)
 }
 
@@ -266,6 +277,15 @@ func (x *c18run) checkBlock(tx database.Tx, b *c18blk, path string) {
 	if path == "pending" {
 		pathClass = "pending"
 		c.Inc("pending_path_checks")
+	} else if strings.HasPrefix(path, "after-failed-commit") {
+		// same process, same DB object, after a commit that rolled over to a
+		// new block file and then failed with an injected write error
+		pathClass = "after-failed-commit"
+		c.Inc("after_failed_commit_path_checks")
+		if x.reopened {
+			c.Inc("after_reopen_checks")
+		}
+		b.reads++
 	} else {
 		c.Inc("committed_path_checks")
 		if x.reopened {
@@ -722,6 +742,10 @@ func runC18(c *kit.Ctx) {
 	}
 	for i := 0; i*per < total; i++ {
 		x.scenario(i, per)
+	}
+	// failed commit after a rollover, process continues (c18_fail.go)
+	for i := 0; i < c.N(2, 10); i++ {
+		x.failedCommitBase(i, c.N(8, 12))
 	}
 	if c.Shard == 0 {
 		c18LiveNode(c)
